@@ -329,3 +329,7 @@ func zzWidthMode()                    {}
 func zzWidth(s string) int            { return visibleLen(s) }
 func zzStrip(s string) string         { return stripANSICodes(s) }
 func zzTruncUF(s string, w int) string { return truncateToWidth(s, w) }
+
+// zzIsNative: false under symbolic execution, true in the native replay (guards cross-checks of
+// harness-level models against the library).
+func zzIsNative() bool { return true }
